@@ -96,3 +96,19 @@ Example fixed_keeps_panic :
   let s := run (buf_cfg VFixed) (init (buf_cfg VFixed)) (buf_sched ++ [LMain BPanic] ++ rep 12 (LMain BOut :: others)) in
   result s = Some (OPanic (PUser 9)) /\ clean s = true.
 Proof. vm_compute. repeat split; reflexivity. Qed.
+
+(* F13 (present before and after the F4 repair): guardedWriter.Write checks done and then sends;
+   finish() closes output in between (a mapper's cancel racing with the reducer's Write).  The
+   reducer's send panics with the runtime's "send on closed channel"; the wrapper recovers it and
+   hands it to the caller, which may re-raise it although no user function panicked.  The -race
+   free run reports the close/send pair as a data race. *)
+Definition f13_cfg : config :=
+  mkCfg VFixed false 2%nat [USend 1] (fun _ => [UCancel (Some 5)]) [UWrite 42].
+Definition f13_sched : list label :=
+  rep 12 [LGen; LExec false] ++ [LRed] ++ rep 4 [LMap 0] ++ rep 12 others ++ [LMain BPanic]
+  ++ rep 12 (LMain BOut :: others).
+
+Theorem cancel_racing_reducer_write_reraises_runtime_panic :
+  exists sched, let s := run f13_cfg (init f13_cfg) sched in
+    g_panics s = [] /\ result s = Some (OPanic PClosed) /\ clean s = true.
+Proof. exists f13_sched. vm_compute. repeat split; reflexivity. Qed.
